@@ -172,6 +172,22 @@ where
     }
 }
 
+/// Verification hook (compiled only with `--cfg penguin_rs_verif`): serve one accepted HTTP proxy
+/// connection on a stream supplied by the caller.
+#[cfg(penguin_rs_verif)]
+pub async fn verif_http_proxy_on_stream<S>(
+    stream: S,
+    client_addr: Option<SocketAddr>,
+    hr: &'static HandlerResources,
+) -> Result<(), String>
+where
+    S: AsyncRead + AsyncWrite + Unpin + Send + 'static,
+{
+    http_proxy_on_stream(stream, client_addr, hr)
+        .await
+        .map_err(|e| e.to_string())
+}
+
 #[cfg(test)]
 mod tests {
     use super::*;
